@@ -16,7 +16,7 @@ baseline() { go test -vet=off -count=1 $(go list ./... | grep -v '/seed$') 2>&1 
 echo "-- baseline tests"; baseline > /tmp/seed-base-$$.txt
 cp $S/demo_test.go $W/$DEMODIR/zz_seed_demo_test.go
 echo "-- demo without patch (must pass)"
-(cd $W/$DEMODIR && go test -vet=off -count=1 -run 'Seed|seed|Demo|demo' . 2>&1 | tail -3); r0=${PIPESTATUS[0]}
+(cd $W/$DEMODIR && go test -vet=off -count=1 . 2>&1 | grep -E '^(--- FAIL|FAIL|ok)' | grep -v -E 'TestCertificateTransparency|TestVCS' | head -5)
 (cd $W/$DEMODIR && go test -vet=off -count=1 . >/dev/null 2>&1); r0b=$?
 git apply $S/patch.diff || { echo "patch does not apply"; rm -f $W/$DEMODIR/zz_seed_demo_test.go; exit 3; }
 go build ./... || { echo "does not build"; git checkout -q -- .; rm -f $W/$DEMODIR/zz_seed_demo_test.go; exit 3; }
